@@ -151,6 +151,25 @@ def run(ctx):
                 ctx.report(f'exit-code-misread:{name}:{code}', f'{name} reads exit {code} as {res.name}, the tool means {want}', {'kind': 'exit', 'driver': name, 'code': code})
             if name == 'clangbinarysearch' and code == 0 and getattr(st2, 'real_num_instances', None) != 7:
                 ctx.report('count-message-not-parsed', f'stderr message "{msg}7" parsed as {getattr(st2, "real_num_instances", None)}', {'kind': 'msg'})
+    # a helper that reports OK with empty output produced a legitimately empty variant (rm-toks on a file with few tokens)
+    tool = stand_in(d, 'exit 51\n')
+    inst = ClexPass('rm-toks-2', {'clex': tool})
+    tc.write_text('x;\n')
+    res, _ = inst.transform(str(tc), 0, ProcessEventNotifier(None))
+    checked += 1
+    if res.name != 'OK' or tc.read_text() != '':
+        ctx.report('exit-code-misread:clex:51-empty-output', f'clex exit 51 with empty output read as {res.name}, file now {tc.read_text()!r}', {'kind': 'exit', 'driver': 'clex', 'code': 51, 'empty': True})
+    # the count line is not always the first line of stderr: the out-of-bounds warning precedes it
+    tool = stand_in(d, f'echo "out"; echo "Warning: number of transformation instances exceeded" >&2; echo "{msg}5" >&2; exit 0\n')
+    inst = ClangBinarySearchPass('x', {'clang_delta': tool})
+    inst.user_clang_delta_std = None
+    inst.clang_delta_std = None
+    inst.clang_delta_preserve_routine = None
+    tc.write_text('int a;\n')
+    res, st2 = inst.transform(str(tc), BinaryState.create(3), ProcessEventNotifier(None))
+    checked += 1
+    if getattr(st2, 'real_num_instances', None) != 5:
+        ctx.report('count-message-not-parsed', f'stderr "Warning…" + "{msg}5" parsed as {getattr(st2, "real_num_instances", None)}', {'kind': 'msg', 'n': 5, 'warning_first': True})
     for n in (0, 1, 9, 10, 123, 99999):
         tool = stand_in(d, f'echo "{conv["stdout_msg"]}{n}"\n')
         inst = ClangBinarySearchPass('x', {'clang_delta': tool})
